@@ -42,15 +42,29 @@ def r08_1(ctx, prog, crate, rec):
                 ok = any(s.bb in b.reach([c.bb]) for s in sync_true) and p.start.bb not in b.reach([c.bb], avoid=[s.bb for s in sync_true])
                 ctx.check(ok, "R08.1", [b.path, lbl, "sync-after-generation", rec.role(c)],
                           "`%s` is not followed by the start synchronisation before `start`" % rec.role(c), c.line())
-        # end sync unavoidable between `end` and any drop / snapshot / post loop
+        # end sync before any drop work.  The guards `needs_drop::<T>()` are type-level constants (the same on every
+        # thread), so reachability is decided once per consistent assignment ("world") of those constants: in each world
+        # the end sync is either unavoidable on the way to every drop, or there is no drop work at all; and whether the
+        # sync runs may only depend on such constants (otherwise threads could disagree on the number of waits).
+        I_, O_ = _generics(b)
         for e in p.ends:
-            later = [c for c in b.live_calls() if c.bb in p.post and (rec.role(c) in ("drop_input", "save_alloc_info") or c.callee.endswith("assume_init_drop"))]
-            later_blocks = {c.bb for c in later} | {l["header"] for l in p.loops("post")}
-            r = b.reach(b.succ[e.bb], avoid=[c.bb for c in sync_false])
-            ctx.check(not (r & later_blocks) and later_blocks, "R08.1", [b.path, lbl, "end-sync-before-untimed-work"],
-                      "after the end timestamp a drop / tally snapshot is reachable without the end synchronisation", e.line())
-            ctx.check(not (set(b.returns) & r), "R08.1", [b.path, lbl, "end-sync-unavoidable"],
-                      "the recorder can return without the end synchronisation", e.line())
+            drops = [c for c in b.live_calls() if c.bb in p.post and (rec.role(c) == "drop_input" or c.callee.endswith("assume_init_drop")
+                                                                        or (c.callee == "std::mem::zeroed" and c.gargs == [O_]))]
+            ctx.check(bool(drops) or lbl == "?", "R08.1", [b.path, lbl, "drop-work-found"], "no drop work found after the end timestamp", e.line())
+            for world in _worlds(b, [I_, O_]):
+                ef = world["filter"]
+                r = b.reach(b.succ[e.bb], avoid=[c.bb for c in sync_false], edge_filter=ef)
+                hit = [c for c in drops if c.bb in r]
+                ctx.check(not hit, "R08.1", [b.path, lbl, "end-sync-before-untimed-work", world["name"]],
+                          "when %s, a thread can start dropping (%s) after its end timestamp without the end synchronisation: its untimed "
+                          "work can overlap another thread's timed section" % (world["name"], sorted({rec.role(c) or c.callee for c in hit})), e.line())
+                # consistency: in this world the sync is either always or never executed between `end` and return
+                allr = b.reach(b.succ[e.bb], edge_filter=ef)
+                reach_sync = [c for c in sync_false if c.bb in allr]
+                skip = bool(set(b.returns) & r)
+                ctx.check(not (reach_sync and skip), "R08.1", [b.path, lbl, "end-sync-all-or-none", world["name"]],
+                          "when %s, the end synchronisation is executed on some paths and skipped on others: threads can disagree on the "
+                          "number of barrier waits" % world["name"], e.line())
         # exactly one start sync and one end sync per path
         n_true = [c for c in sync_true if c.bb in p.pre_own]
         n_false = [c for c in sync_false if c.bb in p.post]
@@ -90,6 +104,33 @@ def r08_1(ctx, prog, crate, rec):
                 if c.callee == "std::sync::Barrier::wait":
                     ctx.check({s.a for s in sb.prov.op_src(c.args[0]) if s.kind == "param"} == {sb.param_name(1)}, "R08.1",
                               [sb.path, "waits-on-given-barrier"], "wait on a different barrier", c.line())
+
+
+def _generics(b):
+    from .C01 import generic_names
+    return generic_names(b)
+
+
+def _worlds(b, gens):
+    """Consistent truth assignments of `needs_drop::<T>()` for T in gens, as edge filters."""
+    sw = {}
+    for bi, t in b.switches():
+        d = direct_place(b, t["discr"])
+        if d and d[0] == "call" and d[1].callee == "std::mem::needs_drop" and len(d[1].gargs) == 1 and d[1].gargs[0] in gens:
+            zero = [a[1] for a in t["arms"] if a[0] == "0"]
+            sw.setdefault(d[1].gargs[0], []).append((bi, zero[0] if zero else None, t["otherwise"]))
+    names = [g for g in gens if g in sw]
+    out = []
+    for mask in range(1 << len(names)):
+        dead = set()
+        desc = []
+        for k, g in enumerate(names):
+            val = bool(mask >> k & 1)
+            desc.append("%sneeds_drop::<%s>()" % ("" if val else "!", g))
+            for bi, f, tr in sw[g]:
+                dead.add((bi, f) if val else (bi, tr))
+        out.append({"name": " && ".join(desc) or "always", "filter": (lambda x, s2, dead=dead: (x, s2) not in dead)})
+    return out
 
 
 def r08_2(ctx, prog, crate, rec):
